@@ -43,14 +43,23 @@ theorem enumArg_str (ty : EnumTy) (s : String) :
       (s ∈ Gen.setterStrings ty ∧ (valueIdx (Gen.members (Gen.setterConv ty)) s).isSome) := by
   simp only [enumArg]; split <;> simp_all
 
-theorem posInt_ok_iff (a : Arg) (hb : NotBool a) : (posInt a).isSome ↔ DocPosInt a := by
+theorem sigValLower_eq : Gen.sigValLower = 0 := rfl
+theorem mcSizeLower_eq : Gen.mcSizeLower = 0 := rfl
+
+theorem posInt_ok_iff (L : Int) (hL : L = 0) (a : Arg) (hb : NotBool a) :
+    (intArg L a).isSome ↔ DocPosInt a := by
+  subst hL
   rcases a with s | l
-  · cases s <;> simp [posInt, DocPosInt]
+  · cases s <;> simp [intArg, DocPosInt]
     case bool b => exact absurd rfl (hb b)
-  · simp [posInt, DocPosInt]
+  · simp [intArg, DocPosInt]
+
+theorem gtInt_eq_pos (x : FloatV) : x.gtInt 0 Gen.plotRejectsNan = x.pos := by
+  cases x <;> simp [FloatV.gtInt, FloatV.pos, Gen.plotRejectsNan]
 
 theorem numPos_ok_iff (s : Scalar) (hb : ∀ b, s ≠ .bool b) : (numPos s).isSome ↔ PosNum s := by
-  cases s <;> simp [numPos, PosNum]
+  have hL : Gen.plotLower = 0 := rfl
+  cases s <;> simp only [numPos, hL, gtInt_eq_pos] <;> simp [PosNum]
   case bool b => exact absurd rfl (hb b)
 
 /-- the options a request may change -/
@@ -95,29 +104,41 @@ theorem enumArg_lt (ty : EnumTy) (a : Arg) (i : Nat) (h : enumArg ty a = some i)
       cases ty <;> simpa [Gen.setterConv] using this
   · simp [enumArg] at h
 
-theorem posInt_pos (a : Arg) (z : Int) (h : posInt a = some z) : 0 < z := by
+theorem posInt_pos (L : Int) (hL : L = 0) (a : Arg) (z : Int) (h : intArg L a = some z) : 0 < z := by
+  subst hL
   rcases a with s | l
-  · cases s <;> simp [posInt] at h
+  · cases s <;> simp [intArg] at h
     · obtain ⟨hh, rfl⟩ := h; exact hh
-    · obtain ⟨_, rfl⟩ := h; decide
-  · simp [posInt] at h
+    · obtain ⟨hh, rfl⟩ := h; simp [hh]
+  · simp [intArg] at h
 
 theorem numPos_pos (s : Scalar) (x : FloatV) (h : numPos s = some x) : x.pos = true := by
-  cases s <;> simp [numPos] at h
-  · obtain ⟨hh, rfl⟩ := h; simpa [FloatV.pos] using hh
-  · obtain ⟨hh, rfl⟩ := h; exact hh
-  · obtain ⟨_, rfl⟩ := h; decide
+  have hL : Gen.plotLower = 0 := rfl
+  cases s <;> simp only [numPos, hL, gtInt_eq_pos] at h
+  case int z =>
+    split at h
+    · rename_i hz; cases h; simpa [FloatV.pos] using hz
+    · cases h
+  case float y =>
+    split at h
+    · rename_i hy; cases h; exact hy
+    · cases h
+  case bool b =>
+    split at h
+    · rename_i hz; cases h; simp [FloatV.pos]
+    · cases h
+  all_goals cases h
 
 theorem plotArg_pos (a : Arg) (w h : FloatV) (hp : plotArg a = some (w, h)) :
     w.pos = true ∧ h.pos = true := by
   rcases a with s | l
   · simp [plotArg] at hp
   · match l with
-    | [] => simp [plotArg] at hp
-    | [x] => simp [plotArg] at hp
-    | x :: y :: z :: r => simp [plotArg] at hp
+    | [] => simp [plotArg, Gen.plotLen] at hp
+    | [x] => simp [plotArg, Gen.plotLen] at hp
+    | x :: y :: z :: r => simp [plotArg, Gen.plotLen] at hp
     | [x, y] =>
-      simp only [plotArg] at hp
+      simp only [plotArg, Gen.plotLen, List.length_cons, List.length_nil, if_true] at hp
       cases hx : numPos x <;> cases hy : numPos y <;> simp [hx, hy] at hp
       obtain ⟨rfl, rfl⟩ := hp
       exact ⟨numPos_pos _ _ hx, numPos_pos _ _ hy⟩
